@@ -142,6 +142,9 @@ def scenarios(tier):
         sc("s1_r1_nested_send_pre1", 1, 1, 1, 1, 1, ["--nested", 1, "--preempt", 2]),
         sc("s1_r1_spurious1", 1, 1, 1, 1, 1, ["--preempt", 2], spur=1),
         sc("r1x2_nested2_pre4", 0, 0, 1, 2, 4, ["--nested", 2, "--depth", 2, "--preempt", 1]),
+        sc("r1x2_nested_full", 0, 0, 1, 2, 5, ["--nested", 1, "--preempt", 1, "--post-points"]),
+        sc("s1_r1_nested_full", 1, 1, 1, 1, 5, ["--nested", 1, "--preempt", 1, "--post-points"]),
+        sc("s1_r1_nested_pre3_post", 1, 1, 1, 1, 3, ["--nested", 1, "--preempt", 1, "--post-points"]),
     ]
     if tier == "thorough":
         q += [
@@ -188,7 +191,8 @@ def run_channel(chk, tier):
         rej, ok_lines = chk.validate_runs(
             "TraceChannelAbs.tla", abs_path, "abs_" + name,
             classify=lambda tv: classify_abs(tv, bound),
-            constants=dict(SLOTS=slots, StepBound=bound), invariants=["SlotsBounded"],
+            constants=dict(SLOTS=slots, StepBound=bound, CheckDrops=(pid == "C07")),
+            invariants=["SlotsBounded"],
             constraints=["Mark"])
         chk.trace_events += ok_lines
         chk.traces += max(stats["distinct_abs_traces"] - len(rej), 0)
